@@ -609,7 +609,7 @@ func (c *Ctx) ownRun() map[string]*simpleVerdict {
 			return o
 		}})
 	}
-	routes := []string{"Clone()","EmptyVariant().Assign(it)", "NewVariant(it)", "VariantFromObject(it)", "EmptyVariant().SetAsObject(it)",
+	routes := []string{"Clone()", "EmptyVariant().Assign(it)", "NewVariant(it)", "VariantFromObject(it)", "EmptyVariant().SetAsObject(it)",
 		"VariantFromArray(the same list)", "EmptyVariant().SetAsArray(the same list)", "NewVariant(the same list)", "a clone of its clone"}
 	for ri, route := range routes {
 		for mi, mu := range mutators {
